@@ -110,7 +110,7 @@ func dstDeclName(d dst.Decl) string {
 }
 
 func runC10(c *fw.Ctx) {
-	n := c.Pick(500, 20000)
+	n := c.Pick(5000, 60000)
 	for i := 0; i < n; i++ {
 		if !c.Mine(i) {
 			continue
